@@ -24,7 +24,9 @@ Record MidA (st : state) : Prop := mkMidA {
   mA_n : forall s, st_n st <= s -> st_subs st s = [];
   (* every delivered or pending op can be applied by a strict client *)
   mA_fit : forall s p, subscribed st s p = true -> ops_fit (pend_for (st_pend st) s p) (st_mirror st s p) = true;
-  mA_hfit : forall s p, ops_fit (st_hist st s p) [] = true
+  mA_hfit : forall s p, ops_fit (st_hist st s p) [] = true;
+  (* a client keeps no history for a node it is not subscribed to *)
+  mA_hunsub : forall s p, subscribed st s p = false -> st_hist st s p = []
 }.
 
 Definition J (st : state) (s : nat) : Prop :=
@@ -184,6 +186,9 @@ Proof.
       change (subscribed (with_pend st []) s p) with (subscribed st s p). simpl.
       destruct (subscribed st s p) eqn:Es; [|apply (mA_hfit st M)].
       rewrite ops_fit_app, (mA_hfit st M), (mA_hist st M). simpl. apply (mA_fit st M s p Es).
+    + intros s p Hs. rewrite (subscribed_subs (with_pend st []) _ s p C) in Hs. rewrite fold_deliver_hist.
+      change (subscribed (with_pend st []) s p) with (subscribed st s p) in *. rewrite Hs. simpl.
+      apply (mA_hunsub st M s p Hs).
   - intro s. apply (J_ext st); [exact D | exact B | apply H6].
   - exact F.
 Qed.
@@ -227,6 +232,7 @@ Proof.
       simpl. exact Hfit.
     + rewrite andb_false_r. reflexivity.
   - apply (mA_hfit st M).
+  - apply (mA_hunsub st M).
 Qed.
 
 Lemma tree_same_MidA : forall st t',
@@ -240,6 +246,7 @@ Proof.
   - apply (mA_n st M).
   - apply (mA_fit st M).
   - apply (mA_hfit st M).
+  - apply (mA_hunsub st M).
 Qed.
 
 Lemma own_inj : forall s s' p, own s p = true -> own s' p = true -> s = s'.
